@@ -259,6 +259,8 @@ package tcp
 //@   ensures ghost(sentFin) == old(ghost(sentFin)) + ite(flags & flagFin != 0, 1, 0)
 //@   ensures s.maxSentAck == s.ep.rcv.rcvNxt
 //@   ensures ghost(tcpSegs) == old(ghost(tcpSegs)) + 1 && ghost(lastTCPFlags) == int(flags) && ghost(lastTCPSeq) == int(uint32(seq)) && ghost(lastTCPAck) == int(uint32(s.ep.rcv.rcvNxt))
+// (ghost: the sequence number just after the segment handed down - data bytes, plus one for a FIN)
+//@   ghost_set lastSegEnd = int(uint32(seq) + uint32(data.size) + uint32(ite(flags & flagFin != 0, 1, 0)))
 //@   modifies modset(NETSEND)
 //@   modifies s.lastSendTime, s.rttMeasureTime, s.maxSentAck, s.ep.rcv.rcvAcc
 
@@ -297,7 +299,12 @@ package tcp
 // idle period, never during recovery); every segment without FIN that is emitted is counted
 // in outstanding, and outstanding is raised only while it is below the window. The two
 // internal assertion panics (FIN not last / FIN with data) are not proved unreachable here.
-//@ func (*sender).sendData props C05 C04 C02
+// C01/C14 (sender direction): SND.NXT never lags behind a segment that was sent - after
+// sendData it is at or beyond (in serial-number order) the end of the last segment handed down,
+// wherever in the 32-bit space the stream lies.
+//@ func (*sender).sendData props C05 C04 C02 C01 C14
+//@   ensures ghost(tcpSegs) == old(ghost(tcpSegs)) || int32(uint32(s.sndNxt) - uint32(ghost(lastSegEnd))) >= 0
+//@   loop 1 invariant ghost(tcpSegs) == old(ghost(tcpSegs)) || int32(uint32(s.sndNxt) - uint32(ghost(lastSegEnd))) >= 0
 //@   requires sndOK(s) && 0 <= s.outstanding && s.outstanding <= 1 << 40 && s.sndCwnd <= 1 << 40
 //@   panics_when true
 //@   ensures s.sndCwnd == old(s.sndCwnd) || (s.sndCwnd == InitialCwnd && old(s.sndCwnd) > InitialCwnd && !old(s.fr.active))
